@@ -120,6 +120,7 @@ def get_unit_labels_and_distances(
     provenance: Provenance,
     units: NDArray,
     world: NDArray,
+    null_label: Optional[int] = None,
 ) -> Tuple[NDArray, NDArray]:
     n_train, n_test, n_units = distances.shape[0], distances.shape[1], len(units)
     assert labels.ndim == 1
@@ -142,6 +143,12 @@ def get_unit_labels_and_distances(
         unit = units[i]
         query[unit] = world[i]
         gidx = provenance.query(query)
+        if null_label is not None and not np.any(gidx):
+            # A unit that owns no tuples is a null player: it gets the label of the null row and an infinite distance.
+            unit_labels[i, :] = null_label
+            unit_distances[i, :] = np.inf
+            query[unit] = 0
+            continue
         glabels = labels[gidx]
         gdistances = np.array(distances[gidx], dtype=float)
         gidx_min = np.argmin(gdistances, axis=0)
@@ -193,7 +200,9 @@ def compute_shapley_1nn_mapfork(
     null_scores: Optional[NDArray] = None,
 ) -> NDArray:
     # Compute the minimal distance for each unit and each test example.
-    unit_labels, unit_distances = get_unit_labels_and_distances(labels, distances, provenance, units, world)
+    unit_labels, unit_distances = get_unit_labels_and_distances(
+        labels, distances, provenance, units, world, null_label=label_utilities.shape[0]
+    )
 
     # Compute unit importances.
     n_test = distances.shape[1]
